@@ -93,8 +93,7 @@ def chunker_siblings(repo: Repo, L: Ledger, rule: str):
         try:
             a_s, a_e = as_lin(args[-2]), as_lin(args[-1])
         except (NotNumeric, IndexError):
-            L.fail(rule, f.short, "chunk bounds passed to sequence_bytes are not integer forms", f.loc(node))
-            continue
+            raise AnalysisError(f"{f.short}: the chunk bounds passed to sequence_bytes ({', '.join(repr(x)[:40] for x in args[-2:])}) are not linear integer forms the chunk arithmetic can be compared with: no verdict")
         L.check(a_s == cs, rule, f"{f.short}:chunk_start", "chunk_start == start + i*B", f"chunk start is {a_s}, expected start + i*buffer_size", f.loc(node))
         L.check(a_e == ce, rule, f"{f.short}:chunk_end", "chunk_end == min(end, chunk_start + B - 1)", f"chunk end is {a_e}, expected min(end, chunk_start + buffer_size - 1)", f.loc(node))
         lo, hi, step = info["range"]
